@@ -111,7 +111,6 @@ func newScopeRegistryWithShardCount(
 }
 
 func (r *scopeRegistry) Report(reporter StatsReporter) {
-	defer r.purgeIfRootClosed()
 	r.reportInternalMetrics()
 
 	for _, subscopeBucket := range r.subscopes {
@@ -137,7 +136,6 @@ func (r *scopeRegistry) Report(reporter StatsReporter) {
 }
 
 func (r *scopeRegistry) CachedReport() {
-	defer r.purgeIfRootClosed()
 	r.reportInternalMetrics()
 
 	for _, subscopeBucket := range r.subscopes {
@@ -282,15 +280,17 @@ func (r *scopeRegistry) lockedLookup(subscopeBucket *scopeBucket, key string) (*
 	return ss, ok
 }
 
-func (r *scopeRegistry) purgeIfRootClosed() {
-	if !r.root.closed.Load() {
-		return
-	}
-
+// purge unregisters and clears every scope. It is called by the root's Close
+// after the final report; a periodic pass that happens to end while the root is
+// being closed must not do it, or values recorded since that pass visited a
+// scope would be dropped before the final report sees them.
+func (r *scopeRegistry) purge() {
 	for _, subscopeBucket := range r.subscopes {
 		subscopeBucket.mu.Lock()
 		for k, s := range subscopeBucket.s {
-			_ = s.Close()
+			if !s.root {
+				_ = s.Close()
+			}
 			s.clearMetrics()
 			delete(subscopeBucket.s, k)
 		}
